@@ -200,6 +200,20 @@ def companion_built_per_entry(ctx, fx, file, struct_path, companion, rule="R-PAR
             roots = [op_local(o) for o in rv_operands(st[2]) if op_local(o) is not None]
             if roots:
                 src |= set(fn.backslice(roots)[0]) | set(roots)
+        # the iterator form: `entries.iter().map(hash).collect()` is per-entry by construction, unless an adaptor drops items
+        _, ssites = fn.backslice(sorted(src)) if src else ((), ())
+        chain = [pl["f"] for _, k, pl in ssites if k == "call"]
+        if any(f.endswith("::collect") for f in chain):
+            n += 1
+            ctx.analysed_fns.add(fid)
+            drop = [f.rsplit("::", 1)[-1] for f in chain if f.rsplit("::", 1)[-1] in
+                    ("filter", "filter_map", "skip_while", "take_while", "skip", "take", "step_by", "flat_map", "flatten", "dedup")]
+            ctx.obligation(rule, fid, "%s collected from every entry" % companion, not drop,
+                           sample={"fn": fid, "form": "collect", "dropping_adaptors": drop})
+            if drop:
+                ctx.violation(rule, fid, "%s built with a conditional push" % companion,
+                              "the iterator chain collected into %s goes through %s: the vector is indexed by slot number, so every "
+                              "value after a dropped slot lands at a lower index" % (companion, "/".join(drop)), fn.file, fn.line)
         for b, c in fn.calls():
             if c["f"].rsplit("::", 1)[-1] != "push" or "Vec" not in c["f"] or not c["a"]:
                 continue
